@@ -934,7 +934,7 @@ def guard_case(universe, rnd, nworld, nguard, conflict_free=False):
             i = r.choice(cs) if cs and r.random() < 0.8 else r.randrange(len(slots))
             g.emit(112, i); slots.append(dict(kind="c?", qidx=0, w=w))
         else:
-            bi = r.randrange(len(BAD_ASTS)); path = r.randrange(7)
+            bi = r.randrange(len(BAD_ASTS)); path = r.randrange(9)
             g.emit(113, path * 100 + bi, len(BAD_ASTS[bi]), BAD_ASTS[bi])
         g.emit(114)
     g.emit(115)
